@@ -272,6 +272,13 @@ func (w *verifLW) outboxEntry(class string, k int) any {
 		id := w.M.URL(fmt.Sprintf("/s%d/act%d", w.sid, k))
 		w.publish(w.activity(id, "M", "Create", mal["id"], w.note(w.M.URL(fmt.Sprintf("/s%d/mn%d", w.sid, k)), "M", mal["id"], nil)))
 		return w.activity(id, "A", "Create", w.owner, w.object(k))
+	case "redirected_forged":
+		out := fmt.Sprintf("/s%d/out%d", w.sid, k)
+		fake := fmt.Sprintf("/s%d/fakeact%d", w.sid, k)
+		w.A.Set(out, &verifsim.Route{Raw: []byte("HTTP/1.1 302 Found\r\nLocation: " + w.M.URL(fake) + "\r\n\r\n")})
+		w.serve(w.M, fake, w.activity(w.A.URL(fmt.Sprintf("/s%d/neverserved%d", w.sid, k)), "M", "Create", w.owner,
+			w.note(w.A.URL(fmt.Sprintf("/s%d/neverservednote%d", w.sid, k)), "M", w.owner, nil)))
+		return w.A.URL(out)
 	case "anon_actor":
 		anon := w.actor("", "A")
 		delete(anon, "id")
@@ -325,6 +332,12 @@ func (w *verifLW) replyEntry(class string, k int, parent string) any {
 		n := w.note(r, "A", w.owner, twin["id"])
 		w.publish(n)
 		return n
+	case "redirected_forged":
+		out := fmt.Sprintf("/s%d/out%d", w.sid, k)
+		fake := fmt.Sprintf("/s%d/fakereply%d", w.sid, k)
+		w.A.Set(out, &verifsim.Route{Raw: []byte("HTTP/1.1 302 Found\r\nLocation: " + w.M.URL(fake) + "\r\n\r\n")})
+		w.serve(w.M, fake, w.note(w.A.URL(fmt.Sprintf("/s%d/neverservedreply%d", w.sid, k)), "M", w.owner, parent))
+		return w.A.URL(out)
 	case "anon_parent":
 		return w.note("", "A", nil, map[string]any{"type": "Note", "name": "STAMP_A", "content": "<p>nobody's</p>"})
 	case "forged_author":
@@ -388,7 +401,8 @@ func (w *verifLW) inspect(out *verifkit.Trace, item Tangible, desc string) {
 		for _, c := range x.creators {
 			if a, ok := c.(*Actor); ok {
 				w.inspect(out, a, desc+"/author")
-				out.Emit(verifkit.M{"ev": "author", "shown": true, "post_host": w.hostName(x.id), "author_host": w.hostName(a.id), "desc": desc})
+				out.Emit(verifkit.M{"ev": "author", "shown": true, "post_host": w.hostName(x.id), "author_host": w.hostName(a.id), "desc": desc,
+					"post_served": verifStampOf(x.title), "author_served": verifStampOf(a.name)})
 			}
 		}
 	}
@@ -513,6 +527,8 @@ func verifRunListing(out *verifkit.Trace, w *verifLW, in verifListingIn) {
 			}
 		}
 	}
+	/* twice: the second time everything that can be is answered from the cache */
+	for pass := 1; pass <= 2; pass++ {
 	shown := []string{}
 	var what string
 	panicked, what := verifkit.Try(func() {
@@ -544,11 +560,12 @@ func verifRunListing(out *verifkit.Trace, w *verifLW, in verifListingIn) {
 			}
 		}
 	})
-	ev := verifkit.M{"ev": "listing", "sid": w.sid, "kind": in.Kind, "owner": in.Owner, "classes": in.Classes, "shown": shown, "panic": panicked, "place": in.Place}
+	ev := verifkit.M{"ev": "listing", "sid": w.sid, "kind": in.Kind, "owner": in.Owner, "classes": in.Classes, "shown": shown, "panic": panicked, "place": in.Place, "pass": pass}
 	if panicked {
 		ev["what"] = what
 	}
 	out.Emit(ev)
+	}
 }
 
 func TestVerifListing(t *testing.T) {
